@@ -32,9 +32,17 @@ Definition pow2 (w : Z) : Z :=
   else if w =? 7 then 128 else if w =? 15 then 32768 else if w =? 31 then 2147483648
   else if w =? 63 then 9223372036854775808 else 2 ^ w.
 
-Definition wu (w x : Z) : Z := x mod pow2 w.                       (* conversion to a w-bit unsigned type *)
-Definition ws (w x : Z) : Z :=                                     (* conversion to a w-bit signed type *)
-  let r := x mod pow2 w in if r <? pow2 (w - 1) then r else r - pow2 w.
+(* 2^w - 1, tabulated likewise *)
+Definition mask (w : Z) : Z :=
+  if w =? 8 then 255 else if w =? 16 then 65535 else if w =? 32 then 4294967295
+  else if w =? 64 then 18446744073709551615 else pow2 w - 1.
+
+(* conversion to a w-bit unsigned type: the value modulo 2^w, computed as x & (2^w - 1)
+   (linear in the size of x; wu w x = x mod 2^w is proved in Arith.v) *)
+Definition wu (w x : Z) : Z := Z.land x (mask w).
+(* conversion to a w-bit signed type *)
+Definition ws (w x : Z) : Z :=
+  let r := wu w x in if r <? pow2 (w - 1) then r else r - pow2 w.
 Definition cast (t : ity) (x : Z) : Z := if sgn t then ws (bits t) x else wu (bits t) x.
 Definition tmin (t : ity) : Z := if sgn t then - pow2 (bits t - 1) else 0.     (* numeric_limits<T>::min() *)
 Definition tmax (t : ity) : Z := if sgn t then pow2 (bits t - 1) - 1 else pow2 (bits t) - 1.
